@@ -515,6 +515,63 @@ fn di_cases(cli: &feos_verif::cli::Cli, rng: &mut Rng) -> (Vec<Value>, Vec<Strin
     (cases, names)
 }
 
+// ---------------------------------------------------------------------------------------------
+// the Newton wrapper (State::new_nvu -> newton) on a mock whose internal energy is a rational function with a step
+
+fn newton_cases(cli: &feos_verif::cli::Cli, rng: &mut Rng) -> (Vec<Value>, String) {
+    let mut out = header();
+    let mut cases = Vec::new();
+    let n = if cli.full() { 160 } else { 40 };
+    let rgas = RGAS.convert_to(JOULE / MOL / KELVIN);
+    for k in 0..n {
+        let kk = 4.5;
+        let tstar = (rng.range(250.0, 450.0) * 8.0).round() / 8.0;
+        // three kinds: no step (converges), target on the same side as the start (converges on one branch),
+        // target inside the step (no temperature has that energy: the iteration alternates around T* until the limit)
+        let kind = k % 3;
+        let amp = if kind == 0 { 0.0 } else { (rng.range(15.0, 140.0) * 4.0).round() / 4.0 };
+        let t0 = (tstar + if kind == 1 { rng.range(5.0, 60.0) } else { rng.range(-40.0, 40.0) }).max(150.0);
+        let u_of = |t: f64, s: f64| rgas * ((kk - 1.0) * t + s * amp * t * t / (tstar * tstar));
+        let u_target = match kind {
+            0 => u_of(tstar + rng.range(-80.0, 80.0), 1.0),
+            1 => u_of(tstar + rng.range(20.0, 120.0), 1.0),
+            _ => rgas * (kk - 1.0) * tstar + rng.range(-0.6, 0.6) * rgas * amp,
+        };
+        let eos = Arc::new(EquationOfState::new(
+            Arc::new(StepIdealGas { k: kk, amp, tstar, w: 1e-7 }),
+            Arc::new(MockEos { ncomp: 1, a: 0.0, b: 0.0, amp: 0.0, vstar: 1.0, w: 1.0, maxdensity: 0.01 }),
+        ));
+        let moles = arr1(&[2.0]) * MOL;
+        let vol = 0.05 * METER.powi::<typenum::P3>();
+        tlog_start();
+        let r = State::new_nvu(&eos, vol, u_target * JOULE / MOL, &moles, Some(t0 * KELVIN));
+        let trace = tlog_take();
+        let res = match &r {
+            Ok(s) => json!({"code": 0, "T": s.temperature.convert_to(KELVIN),
+                "u": s.molar_internal_energy(Contributions::Total).convert_to(JOULE / MOL)}),
+            Err(EosError::NotConverged(w)) if w == "newton" => json!({"code": 13, "msg": "NotConverged(newton)"}),
+            Err(e) => json!({"code": 20, "msg": e.to_string()}),
+        };
+        let dq = |x: f64| {
+            let d = dyadic(x);
+            let d = d.trim_start_matches('(').trim_end_matches(')').to_string();
+            let mut it = d.split(", ");
+            format!("(dyq ({}) ({}))", it.next().unwrap(), it.next().unwrap())
+        };
+        // the model works with u/R; R = k_B N_A exactly
+        writeln!(
+            out,
+            "Eval vm_compute in (\"NW\", {k}%Z, run_newton {} {} {} ({} / (831446261815324 # 100000000000000)) {}).",
+            dq(kk), dq(amp), dq(tstar), dq(u_target), dq(t0)
+        )
+        .unwrap();
+        cases.push(json!({"id": k, "k": kk, "amp": amp, "T_star": tstar, "u_target_J_mol": u_target, "T_start_K": t0, "V_m3": 0.05, "N_mol": 2.0,
+            "result": res, "trace": trace}));
+    }
+    std::fs::write(format!("{}/newton_cases.v", cli.out), &out).unwrap();
+    (cases, "newton_cases.v".into())
+}
+
 /// the repaired defect, replayed on the real implementation with real models: a NaN / infinite pressure must not
 /// produce a state (before the repair the liquid-start iteration fell through to Ok after 50 iterations)
 fn nonfinite_pressure() -> Vec<Value> {
@@ -549,11 +606,13 @@ fn main() {
     let mut rng = Rng(cli.seed.wrapping_mul(0x2545_F491_4F6C_DD1D).wrapping_add(3));
     let (cases, files) = pattern_cases(&cli, &mut rng);
     let (dic, dif) = di_cases(&cli, &mut rng);
+    let (nwc, nwf) = newton_cases(&cli, &mut rng);
     let (nrec, ntp) = if cli.full() { (127, 200) } else { (8, 25) };
     let sw = sweep::run(cli.seed, nrec, ntp, 5);
     cli.write_impl(&json!({
         "pattern_cases": cases, "pattern_files": files,
         "di_cases": dic, "di_files": dif,
+        "newton_cases": nwc, "newton_file": nwf,
         "nonfinite_pressure": nonfinite_pressure(),
         "sweep": sw.json,
     }));
